@@ -19,7 +19,10 @@ RULE = (
     "default; length prefix; pinned code/width; bytes == independent reference encoder (zlib messages: header "
     "bytewise, payload after inflate); group dispatcher picks the same class/value; reference decoder agrees; "
     "obfuscation == independent rotl-per-word reference both ways; DataConnection.encode/decode_message_data round "
-    "trip. Non-trivial = payload non-empty and not all zero bytes (message cases) or payload longer than 4 bytes "
+    "trip; serialize_into() on a buffer that already holds bytes (3 junk bytes / a previous frame) appends exactly the "
+    "frame; a stream of [init message +] the frame twice + a probe frame fed to the reader of a real ServerConnection / "
+    "PeerConnection (plain; peer frames obfuscated; distributed connection accepted obfuscated whose init message is "
+    "obfuscated and whose later frames are plain) is delivered as exactly those three messages. Non-trivial = payload non-empty and not all zero bytes (message cases) or payload longer than 4 bytes "
     "(obfuscation cases); distinct = distinct case document. (c) raw frames: the 299 hand-written vectors through the "
     "metamorphic oracle 'if the bytes decode to m then decode(encode(m)) == m and encode(decode(encode(m))) == encode(m)'; "
     "thorough additionally runs atheris (libFuzzer, coverage-guided) on each of the five dispatchers with that oracle, "
@@ -347,6 +350,34 @@ def run_msg_case(case, res: CaseResult):
                 res.violate(f'C01/conn-decode:{key}:obf={obfuscated}', f'{got} != {want}')
         except Exception as exc:
             res.violate(f'C01/conn-raises:{key}:obf={obfuscated}:{type(exc).__name__}', repr(exc))
+    # (8) serialize_into appends to whatever the buffer already holds (messages batched into one write)
+    for prefix in (b'\x01\x02\x03', data):
+        try:
+            buf = bytearray(prefix)
+            obj.serialize_into(buf, compress=True) if m['compressed'] else obj.serialize_into(buf)
+            if bytes(buf) != prefix + data:
+                res.violate(f'C01/serialize-into-occupied-buffer:{key}',
+                            f'prefix {len(prefix)} bytes: {bytes(buf).hex()[:160]} != {(prefix + data).hex()[:160]}')
+                break
+        except Exception as exc:
+            res.violate(f'C01/serialize-into-raises:{key}:{type(exc).__name__}', repr(exc))
+            break
+    # (9) a stream of frames through the reader of a real connection
+    if not (group == 'server' and kind == 'Request') and group != 'peer_init':
+        modes = ['plain'] if group == 'server' else (['plain', 'obf'] if group == 'peer' else ['plain', 'obf-init'])
+        for mode in modes:
+            try:
+                out = _stream_roundtrip(group, obj, data, okey, mode)
+            except Exception as exc:
+                res.violate(f'C01/stream-raises:{group}:{mode}:{type(exc).__name__}', f'{key} {exc!r}')
+                continue
+            if isinstance(out, str):
+                res.violate(f'C01/stream-framing:{group}:{mode}', f'{key}: {out}')
+            else:
+                _, got = msgbridge.from_obj(out)
+                if _norm_fields(fields, got) != want:
+                    res.violate(f'C01/stream-value:{key}:{mode}', f'{got} != {want}')
+            res.label('stream:' + mode)
     res.nontrivial = len(ref_payload) > 0 and any(ref_payload)
     if any(v is None for v in values.values()):
         res.label('has-absent-field')
@@ -427,6 +458,98 @@ def run_raw_case(case, res: CaseResult):
         if struct.unpack_from('<I', e1, 0)[0] != len(e1) - 4:
             res.violate(f'C01/raw:length-prefix:{name}', '')
     res.nontrivial = True
+
+
+
+# ---------------------------------------------------------------------------
+# (9) framing through a real connection object: the reader loop has to find the frame boundaries of a stream of
+# several messages, plain, obfuscated, and on a distributed connection that starts obfuscated (init message) and
+# goes on in plain, the way Network.on_peer_accepted drives it
+
+_STREAM_LOOP = None
+
+
+class _RecNet:
+    def __init__(self):
+        self.messages = []
+        self.states = []
+
+    async def on_message_received(self, message, connection):
+        self.messages.append(message)
+
+    async def on_state_changed(self, state, connection, close_reason=None):
+        self.states.append(state)
+
+    async def on_peer_accepted(self, connection):
+        pass
+
+
+def _stream_roundtrip(group, obj, data, okey, mode):
+    """Feeds [init] + 2 x the frame + a probe frame through the reader of a real connection.
+    Returns (error text | None)."""
+    global _STREAM_LOOP
+    import asyncio
+    from aioslsk.network.connection import ConnectionState, PeerConnection, PeerConnectionState, ServerConnection
+    from aioslsk.protocol import messages as M
+    if _STREAM_LOOP is None or _STREAM_LOOP.is_closed():
+        _STREAM_LOOP = asyncio.new_event_loop()
+    loop = _STREAM_LOOP
+    net = _RecNet()
+    if group == 'server':
+        probe = M.GetUserStatus.Response('probe', 1, False)
+    elif group == 'peer':
+        probe = M.PeerPlaceInQueueReply.Request('probe', 3)
+    else:
+        probe = M.DistributedBranchLevel.Request(7)
+    probe_data = probe.serialize()
+
+    async def main():
+        reader = asyncio.StreamReader()
+        if group == 'server':
+            conn = ServerConnection('h', 1, net, obfuscated=False)
+            conn._reader = reader
+            conn.state = ConnectionState.CONNECTED
+            wire = data + data + probe_data
+            reader.feed_data(wire)
+            conn.start_reader_task()
+        else:
+            typ = 'D' if group == 'distributed' else 'P'
+            obf_conn = mode in ('obf', 'obf-init')
+            conn = PeerConnection('h', 1, net, obfuscated=obf_conn, connection_type='P', incoming=True)
+            conn._reader = reader
+            conn.state = ConnectionState.CONNECTED
+            init = M.PeerInit.Request('someone', typ, 0).serialize()
+            frames_obf = obf_conn and typ == 'P'
+            enc = (lambda b: wire_ref.obf_encode(b, okey)) if frames_obf else (lambda b: b)
+            wire = (wire_ref.obf_encode(init, okey) if obf_conn else init) + enc(data) + enc(data) + enc(probe_data)
+            reader.feed_data(wire)
+            first = await conn.receive_message_object()
+            if not isinstance(first, M.PeerInit.Request) or first.typ != typ:
+                return f'init message not read back: {first!r}'
+            conn.connection_type = first.typ
+            conn.username = first.username
+            conn.set_connection_state(PeerConnectionState.ESTABLISHED)
+        for _ in range(60):
+            if len(net.messages) >= 3 or conn._reader_task is None or conn._reader_task.done():
+                break
+            await asyncio.sleep(0)
+        alive = conn._reader_task is not None and not conn._reader_task.done()
+        got = list(net.messages)
+        if conn._reader_task is not None:
+            conn._reader_task.cancel()
+            try:
+                await conn._reader_task
+            except BaseException:
+                pass
+        if len(got) != 3:
+            return f'{len(got)} of 3 messages delivered (reader alive={alive}, state={conn.state})'
+        if got[2] != probe:
+            return f'probe frame decoded as {got[2]!r}'
+        if type(got[0]) is not type(obj) or got[0] != got[1]:
+            return f'frames decoded as {type(got[0]).__qualname__} / {type(got[1]).__qualname__}'
+        return got[0]
+
+    return loop.run_until_complete(main())
 
 
 def run_case(case) -> CaseResult:
